@@ -763,7 +763,13 @@ pub fn gen_reply(r: &mut Rng, q: &Msg, nrec: usize, max_opaque: usize, hostile_n
         }
         m.opt = Some(Opt {
             udp_size: *r.pick(&[512u16, 1232, 4096]),
-            ext_rcode: if r.chance(1, 10) { r.below(3) as u8 } else { 0 },
+            // the extended rcode is a full octet (12 bit rcodes up to 4095)
+            ext_rcode: match r.below(10) {
+                0 => r.below(3) as u8,
+                1 => r.u8(),
+                2 => *r.pick(&[0x10u8, 0x80, 0xab, 0xff]),
+                _ => 0,
+            },
             version: 0,
             flags: if q.opt.as_ref().map(|o| o.flags & 0x8000 != 0).unwrap_or(false) { 0x8000 } else { 0 },
             options,
